@@ -276,6 +276,13 @@ HkFails(e) ==
           ELSE IF s.gos = 1
                THEN (IF ~RecordMatches(s.base, e.table) THEN {<<"C10", "record-at-go", D(<<s.cmd, [j \in 1..Len(e.table) |-> e.table[j][2]]>>)>>} ELSE {})
                ELSE (IF ~RecordCovers(s.base, e.table) THEN {<<"C10", "record-lost-before-a-further-go", D(<<s.cmd, [j \in 1..Len(e.table) |-> e.table[j][2]]>>)>>} ELSE {}))
+         \* ... and the same for the record the SEARCH THREAD says it was handed (srch_start, logged on entry of the search):
+         \* "a position that has already occurred at least twice (in the game plus the current line)" needs the game's
+         \* single occurrences too, not a digest of the record
+         \cup (IF s.skip \/ ~Has(e, "stable") THEN {}
+               ELSE IF s.gos = 1
+                    THEN (IF ~RecordMatches(s.base, e.stable) THEN {<<"C10", "search-was-handed-another-record", D(<<s.cmd, [j \in 1..Len(e.stable) |-> e.stable[j][2]]>>)>>} ELSE {})
+                    ELSE (IF ~RecordCovers(s.base, e.stable) THEN {<<"C10", "search-was-handed-another-record", D(<<s.cmd, [j \in 1..Len(e.stable) |-> e.stable[j][2]]>>)>>} ELSE {}))
          \* C09 inside the real command loop: the slice planned for THIS go (logged at GoAccept, placed right behind its go
          \* line) obeys the contract for the tokens of this go line alone and for the side to move of the board that is
          \* searched - whatever earlier go commands carried
